@@ -28,8 +28,11 @@ type relayResponse struct {
 }
 
 type relay struct {
-	delta      *confluence.DynamicDeltaMultiplier[relayResponse]
-	inlet      confluence.Inlet[relayResponse]
+	delta *confluence.DynamicDeltaMultiplier[relayResponse]
+	inlet confluence.Inlet[relayResponse]
+	// closed is closed once the relay has been told to shut down. From then on nothing
+	// reads from inlet, so writers must stop sending to it.
+	closed     <-chan struct{}
 	bufferSize int
 }
 
@@ -83,7 +86,7 @@ func openRelay(
 		confluence.WithRetryOnPanic(),
 		confluence.WithAddress("relay"),
 	)
-	return &relay{delta: delta, inlet: writes}
+	return &relay{delta: delta, inlet: writes, closed: sCtx.Done()}
 }
 
 func (r *relay) connect() (confluence.Outlet[relayResponse], func()) {
